@@ -548,6 +548,8 @@ pub fn gen_cell(rng: &mut Rng) -> (f64, f64, f64, &'static str) {
     let angle = match (fam, rng.below(5)) {
         ("Monoclinic", 0) => pi / 6.0,
         ("Monoclinic", 1) => pi / 2.0,
+        // an obtuse cell: outside the optimiser's box, inside what a JSON file may hold
+        ("Monoclinic", 2) => rng.range(pi / 2.0, 3.0),
         ("Monoclinic", _) => rng.range(pi / 6.0, pi / 2.0),
         ("Hexagonal", _) => pi / 3.0,
         (_, 0) => rng.range(0.1, 3.0),
@@ -592,8 +594,23 @@ pub fn gen_site_coord(rng: &mut Rng) -> f64 {
     }
 }
 
+/// operation lists of groups the crate has no table for (a custom `WyckoffSite` / JSON): their linear
+/// parts are NOT symmetric matrices, unlike those of the seven built-in groups
+pub fn custom_ops(name: &str) -> Vec<[f64; 9]> {
+    let m = |a: f64, b: f64, c: f64, d: f64, e: f64, f: f64| [a, b, c, d, e, f, 0.0, 0.0, 0.0];
+    match name {
+        // p4: x,y  -y,x  -x,-y  y,-x
+        "p4" => vec![m(1., 0., 0., 0., 1., 0.), m(0., -1., 0., 1., 0., 0.), m(-1., 0., 0., 0., -1., 0.), m(0., 1., 0., -1., 0., 0.)],
+        // p3: x,y  -y,x-y  -x+y,-x
+        "p3" => vec![m(1., 0., 0., 0., 1., 0.), m(0., -1., 0., 1., -1., 0.), m(-1., 1., 0., -1., 0., 0.)],
+        // p4gm-like: a four-fold rotation and glides with half translations
+        "p4g" => vec![m(1., 0., 0., 0., 1., 0.), m(0., -1., 0.5, 1., 0., 0.5), m(-1., 0., 0., 0., -1., 0.), m(0., 1., 0.5, -1., 0., 0.5)],
+        _ => vec![m(1., 0., 0., 0., 1., 0.)],
+    }
+}
+
 pub fn gen_site(rng: &mut Rng) -> (Vec<[f64; 9]>, f64, f64, f64) {
-    let mut ops = group_mats(*rng.pick(&GROUPS));
+    let mut ops = if rng.below(6) == 0 { custom_ops(*rng.pick(&["p4", "p3", "p4g"])) } else { group_mats(*rng.pick(&GROUPS)) };
     // a site's operation list is data (public, read from JSON): the listed order need not start with
     // the identity
     if ops.len() >= 2 && rng.below(4) == 0 {
@@ -923,8 +940,9 @@ pub fn gen_state_desc_ext(rng: &mut Rng, dense: bool, ext: bool) -> String {
     let mut nsites = 1;
     match if ext { rng.below(14) } else { 99 } {
         // (only for the groups every lattice admits: a mirror or glide is not a symmetry of a 60 degree cell)
-        0 if g == "p1" || g == "p2" => {
-            let (fam, ang) = *rng.pick(&[("Hexagonal", pi / 3.0), ("Tetragonal", pi / 2.0)]);
+        0 => {
+            // (a square cell admits every built-in group; a 60 degree cell only the two without mirrors)
+            let (fam, ang) = if g == "p1" || g == "p2" { *rng.pick(&[("Hexagonal", pi / 3.0), ("Tetragonal", pi / 2.0)]) } else { ("Tetragonal", pi / 2.0) };
             gtok = format!("{}@{}", g, fam);
             if ratio <= 0.1 { length = rng.range(1.2, 3.5) * n.sqrt(); }
             ratio = 1.0;
